@@ -567,7 +567,72 @@ def r04_10(chk):
     chk.floor("R04.10", 2, "property stores in the Sequence classes")
 
 
+COPY_CALLS = {"deepcopy", "copy"}
+
+
+def _is_copy(e):
+    return isinstance(e, ast.Call) and ((call_name(e) or "").split(".")[-1] in COPY_CALLS or (isinstance(e.func, ast.Call) and (call_name(e.func) or "") in ("type",)))
+
+
+def r04_11(chk):
+    chk.rule("R04.11", "building a collection does not add records to the annotation db of the sequences it is given: in merged_db_collection the receiver of `.update(<other db>)` is never (an alias of) a db read from an input sequence -- it is a copy; otherwise s1's db silently acquires s2's records and a second collection built from the same sequences returns them twice ('exactly the features that overlap' fails)")
+    n = 0
+    for rel in ("core/alignment.py", "core/new_alignment.py"):
+        m = chk.repo.module(rel)
+        fns = [f for f in m.tree.body if isinstance(f, ast.FunctionDef) and f.name == "merged_db_collection"]
+        if not fns:
+            raise AnalysisError(f"{rel}: merged_db_collection not found")
+        fn = fns[0]
+        assigns = [st for st in walk_no_nested(fn) if isinstance(st, ast.Assign) and len(st.targets) == 1 and isinstance(st.targets[0], ast.Name)]
+        # names holding a db that belongs to an input sequence
+        owned = set()
+        changed = True
+        while changed:
+            changed = False
+            for st in assigns:
+                t = st.targets[0].id
+                v = st.value
+                if t in owned:
+                    continue
+                if (isinstance(v, ast.Attribute) and v.attr == "annotation_db") or (isinstance(v, ast.Name) and v.id in owned):
+                    owned.add(t)
+                    changed = True
+        ups = [c for c in walk_no_nested(fn) if isinstance(c, ast.Call) and isinstance(c.func, ast.Attribute) and c.func.attr == "update" and isinstance(c.func.value, ast.Name)]
+        if not ups:
+            chk.ok("R04.11", key(m, "merged_db_collection", "no in-place merge"), m.loc(fn), "no .update() on a db", nontrivial=False)
+            continue
+        for c in ups:
+            n += 1
+            r = c.func.value.id
+            k = key(m, "merged_db_collection", "merge target is not an input sequence's db")
+            defs = [st for st in assigns if st.targets[0].id == r]
+            alias_defs = [st for st in defs if not _is_copy(st.value) and not (isinstance(st.value, ast.Constant) and st.value.value is None)]
+            if r not in owned or not alias_defs:
+                chk.ok("R04.11", k, m.loc(c), f"`{r}` only ever holds a copy")
+                continue
+            # guard-repair idiom: `if r is X: r = copy(...)` in the same block, before the call, for every alias X
+            guarded = True
+            for ad in alias_defs:
+                x = norm(ad.value)
+                found = False
+                for blk in ast.walk(fn):
+                    for fld in ("body", "orelse"):
+                        stmts = getattr(blk, fld, None)
+                        if not isinstance(stmts, list):
+                            continue
+                        idx = next((i for i, st in enumerate(stmts) if any(y is c for y in ast.walk(st))), None)
+                        if idx is None:
+                            continue
+                        for st in stmts[:idx]:
+                            if isinstance(st, ast.If) and norm(st.test) in (f"{r} is {x}", f"{x} is {r}") and any(isinstance(b, ast.Assign) and norm(b.targets[0]) == r and _is_copy(b.value) for b in st.body):
+                                found = True
+                guarded = guarded and found
+            chk.decide(guarded, "R04.11", k, m.loc(c), f"`{r}` is re-bound to a copy whenever it still is the input's db", f"`{norm(c)}` adds the other sequences' records to `{r}`, which is the annotation db of the first input sequence ({', '.join(norm(a) for a in alias_defs)}): make_aligned_seqs([s1, s2]) leaves len(s1.annotation_db) larger, and a second make_aligned_seqs([s1, s2]) returns s2's feature twice")
+    chk.floor("R04.11", 2, "old- and new-type merged_db_collection")
+
+
 def run(chk):
+    r04_11(chk)
     r04_10(chk)
     r04_9(chk)
     r04_8(chk)
